@@ -6,6 +6,7 @@ from .. import hgen
 from ..hbase import STUBS
 from ..hlib import c12 as L
 from .common import BASE_ASSUMPTIONS, ROOT, Cond, Spec
+from ..runner import innermost as U
 
 
 def build(tier):
@@ -37,7 +38,7 @@ def build(tier):
     S = aioftp.Server
     return Spec(
         pid="C12", source=src, conds=conds,
-        functions_encoded=[S.dispatcher, S.close, S.start, S._start_passive_server, S._start_server, S.pasv.__wrapped__, S.epsv.__wrapped__, aioftp.server.worker,
+        functions_encoded=[S.dispatcher, S.close, S.start, S._start_passive_server, S._start_server, U(S.pasv), U(S.epsv), aioftp.server.worker,
                            pathio.AsyncPathIOContext.__aexit__, aioftp.ThrottleStreamIO.__aexit__, aioftp.StreamIO.close],
         bounds={
             "scripts": f"real aioftp.Client sessions over SimNet: {[f.__name__ for i, f in enumerate(L.SCRIPTS) if i in scripts]} (listing, upload, download, directory operations, stat + append at an offset + PASV/EPSV)",
